@@ -328,11 +328,50 @@ func init() {
 		"strings.TrimSuffix": func(fr *frame, a []value) value { return strings.TrimSuffix(concStr(a[0], "TrimSuffix"), concStr(a[1], "TrimSuffix")) },
 		"strings.Compare":   func(fr *frame, a []value) value { return fr.in.cmp3(symstrOf(a[0]), symstrOf(a[1])) },
 		"path.Join": func(fr *frame, a []value) value {
-			var parts []string
-			for _, p := range a[0].([]value) {
-				parts = append(parts, concStr(p, "path.Join"))
+			elems := a[0].([]value)
+			allConc := true
+			for _, p := range elems {
+				if _, ok := p.(string); !ok {
+					allConc = false
+				}
 			}
-			return pathJoin(parts)
+			if allConc {
+				var parts []string
+				for _, p := range elems {
+					parts = append(parts, p.(string))
+				}
+				return pathJoin(parts)
+			}
+			// some element carries symbolic / encoded bytes: clean concrete runs, join with '/'
+			var out []value
+			var run []string
+			flush := func() {
+				if len(run) == 0 {
+					return
+				}
+				j := pathJoin(run)
+				run = nil
+				if j == "" {
+					return
+				}
+				if len(out) > 0 {
+					out = append(out, uint8('/'))
+				}
+				out = append(out, symstrOf(j).b...)
+			}
+			for _, p := range elems {
+				if s, ok := p.(string); ok {
+					run = append(run, s)
+					continue
+				}
+				flush()
+				if len(out) > 0 {
+					out = append(out, uint8('/'))
+				}
+				out = append(out, p.(symstr).b...)
+			}
+			flush()
+			return normStr(symstr{out})
 		},
 		"bytes.Equal":   func(fr *frame, a []value) value { return fr.in.strEq(bytesOf(a[0]), bytesOf(a[1])) },
 		"bytes.Compare": func(fr *frame, a []value) value { return fr.in.cmp3(bytesOf(a[0]), bytesOf(a[1])) },
@@ -635,6 +674,14 @@ func (in *interp) sprintf(format value, args []value) value {
 	if !ok {
 		return "<symbolic format>"
 	}
+	if f == "%020d" && len(args) == 1 {
+		// key builders (storePath, regionPath, ...): always the order-preserving codec, also for constants
+		if i, ok := args[0].(iface); ok {
+			if r := in.dec20(i.v); r != nil {
+				return r
+			}
+		}
+	}
 	hs := make([]interface{}, len(args))
 	for k, x := range args {
 		h, ok := in.hostArg(x)
@@ -652,6 +699,15 @@ func (in *interp) sprintf(format value, args []value) value {
 // symSprintf handles the few formats whose result is needed symbolically.
 func (in *interp) symSprintf(f string, args []value) value {
 	return nil
+}
+
+// dec20 renders x with "%020d" as an order-preserving codec element.
+func (in *interp) dec20(x value) value {
+	k := kindOf(x)
+	if k == types.Invalid || kindBits(k) != 64 {
+		return nil
+	}
+	return symstr{[]value{codecDec20{in.term(x)}}}
 }
 
 // vErrIs reports whether err (target error value) was produced from the given
